@@ -9,7 +9,7 @@ the number type.  Every `assert` of the code is an explicit `Except` error, neve
 What the code treats as an impossible ("non-possible") percentage: `percentage > 1e5 or percentage < -100`
 — so exactly -100 and exactly 1e5 are valid.  The result is `mean_value / (1 - rejected_weight)`;
 the weight of the valid entries is only used for a 1e-4 consistency assertion.  The sentinel 9.37e36
-is returned when no entry is valid or when `1 - rejected_weight == 0`.
+is returned when no entry is valid, when `1 - rejected_weight == 0` or when the valid weight is 0.
 -/
 namespace Allfed.ImportAvg
 open Allfed
@@ -53,8 +53,9 @@ def finish (a : Acc α) : Except AvgErr α :=
   if a.nValid = 0 then .ok sentinel
   else
     let renorm : α := 1 - a.rejected
-    -- `renormalization == 0`
-    if renorm ≤ 0 ∧ 0 ≤ renorm then .ok sentinel
+    -- `renormalization == 0 or non_rejected_weighting_sum == 0` (second test added by the `fix:` commit for C17:
+    -- in floating point the rejected weights may add up to 1 only approximately)
+    if (renorm ≤ 0 ∧ 0 ≤ renorm) ∨ (a.nonRejected ≤ 0 ∧ 0 ≤ a.nonRejected) then .ok sentinel
     else if ¬ ((0.9999 : α) ≤ a.nonRejected / renorm ∧ a.nonRejected / renorm ≤ (1.0001 : α)) then .error .renormCheck
     else .ok (a.mean / renorm)
 
